@@ -342,6 +342,7 @@ def execute(scenario):
                 outcomes['op_ok'] = outcomes.get('op_ok', 0) + 1
             for _, sig in rec.get('src_errors', []):
                 faults['failing_source:' + sig['type']] = faults.get('failing_source:' + sig['type'], 0) + 1
+    st['scenarios'] = 1
     pdig = core.digest(scenario['programs'])
     idigs = set()
     for si, spec in enumerate(scenario['scheds']):
@@ -463,7 +464,8 @@ def shrink(sc):
 
 
 def evidence_extra(stats):
-    return {'schedules_run': stats.get('runs', 0)}
+    return {'evaluations': int(stats.get('runs', 0)), 'scenarios': int(stats.get('scenarios', 0)),
+            'evaluations_note': 'one evaluation = one concurrent execution of a scenario under one schedule (each compared with the isolated twins)'}
 
 
 def reach_problems(stats, tier):
